@@ -418,6 +418,34 @@ example : (exH.ignore 5 2 4).map (·.cells) = some [[4], [4], [4], [], [], []] :
 example : ((wsOp dw false 5 exH 2).map (fun h => (h.objs.take 2 == exH.objs.take 2, h.objs.length, invCheck h))) =
     some (true, 8, true) := by decide
 
+/-- non-vacuity of `ignore_frame` on `exH`: `(a + b).ignore('#')`, footprint D = {2, 0, 1}; the expression 5 (= '#',
+    E = {5}) parses as before, whatever the input -/
+example (h' : Heap) (hop : exH.ignore 5 2 4 = some h') (inp : List Char) (f loc : Nat) (a c : Bool) :
+    parse h'.resolve inp f 5 loc a c = parse exH.resolve inp f 5 loc a c := by
+  refine ignore_frame exH h' 5 2 4 hop (invCheck_sound exH (by decide)).2 (fun i => i = 2 ∨ i = 0 ∨ i = 1) ?_
+    (Or.inl rfl) (fun i => i = 5) ?_ ?_ ?_ inp f 5 rfl loc a c
+  · intro i o hi ho k hk
+    rcases hi with rfl | rfl | rfl <;> simp [exH, mkObj, mkNode] at ho <;> subst ho <;> simp [sub] at hk
+    rcases hk with rfl | rfl <;> simp
+  · intro i hi; subst hi; decide
+  · intro i nd hi hnd k hk
+    subst hi
+    simp [Heap.resolve, resolveWith, exH, mkObj, mkNode, ignoreOf] at hnd
+    subst hnd
+    simp [Node.children, Kind.children] at hk
+  · intro i hi hD; subst hi; rcases hD with h | h | h <;> cases h
+
+/-- non-vacuity of `ws_frame` on `exH`: `(a + b).leave_whitespace()` (x = 2) leaves `a` (E = {0}) alone -/
+example (h' : Heap) (hop : wsOp dw false 5 exH 2 = some h') (inp : List Char) (f loc : Nat) (a c : Bool) :
+    parse h'.resolve inp f 0 loc a c = parse exH.resolve inp f 0 loc a c := by
+  refine ws_frame dw false 5 exH h' 2 hop (invCheck_sound exH (by decide)) (fun i => i = 0) ?_ ?_ (by decide)
+    inp f 0 rfl loc a c
+  · intro i hi; subst hi; decide
+  · intro i nd hi hnd k hk
+    subst hi
+    simp [Heap.resolve, resolveWith, exH, mkObj, mkNode, ignoreOf] at hnd
+    subst hnd
+    simp [Node.children, Kind.children] at hk
 /-- **the invariant is needed** (the shape of an aliasing `copy()`): 0 = 'a' and its "copy" 1 hold the SAME list
     object; `ignore` on the copy then changes the original, although the original is not reachable from the copy:
     before, 'a' fails on "#a"; after, it matches. -/
